@@ -65,6 +65,9 @@ type PluginPlan struct {
 	// InLong: Start is issued as soon as the first long block (CreatorPlan.LongAt) has been
 	// granted, so that the registration stays pending behind it (After still applies as well).
 	InLong bool `json:"in_long,omitempty"`
+	// Name is the plugin's NRI name (default: the harness' own unique label res<i> / reg<i>).
+	// Plugins of a plan may share index and name: several instances of one plugin.
+	Name string `json:"name,omitempty"`
 	// Leave: the plugin goes away (its stub is stopped) LeaveUs microseconds after a drawn
 	// moment: 1 = as soon as its Start returned (with InLong: while its registration is still
 	// pending behind the long block), 2 = when its Synchronize handler is entered, 3 = when it
@@ -254,6 +257,27 @@ func genC08(t *rapid.T) C08Case {
 			}
 		}
 	}
+	// The identity alphabet: in half of the plans every plugin (residents included) draws its
+	// index from {10, 20} and its name from {logger, tracer}: twins, three of a kind, same index
+	// with another name, same name with another index, next to distinct plugins.
+	if rapid.Bool().Draw(t, "shared_identities") {
+		ident := func(pp *PluginPlan) {
+			pp.Idx = 10
+			if rapid.Bool().Draw(t, "idx20") {
+				pp.Idx = 20
+			}
+			pp.Name = "logger"
+			if rapid.Bool().Draw(t, "tracer") {
+				pp.Name = "tracer"
+			}
+		}
+		for i := range c.Residents {
+			ident(&c.Residents[i])
+		}
+		for i := range c.Plugins {
+			ident(&c.Plugins[i])
+		}
+	}
 	// The id alphabet: in half of the plans pods and containers draw their ids from one pool.
 	if rapid.Bool().Draw(t, "shared_ids") {
 		pool := []string{"sb0", "sb1", "sb", "sb00", "s", "0"}
@@ -402,6 +426,9 @@ func normalize(c C08Case) C08Case {
 			pp.After = clamp(pp.After, 0, sum)
 			pp.SyncUs = clamp(pp.SyncUs, 0, 20000)
 			pp.CreateUs = clamp(pp.CreateUs, 0, 2000)
+			if len(pp.Name) > 32 || strings.ContainsAny(pp.Name, "/ \t\n") {
+				pp.Name = ""
+			}
 			pp.Leave = clamp(pp.Leave, 0, 3)
 			pp.LeaveUs = clamp(pp.LeaveUs, 0, 20000)
 			out[i] = pp
@@ -748,7 +775,11 @@ func (x *exec) newPlug(i int, pp PluginPlan, resident bool) *plug {
 		pl.name = fmt.Sprintf("reg%d", i)
 	}
 	mask := api.MustParseEventMask("CreateContainer", "StopPodSandbox", "RemovePodSandbox")
-	p := &fx.Plugin{Name: pl.name, Idx: fmt.Sprintf("%02d", pp.Idx), Mask: mask}
+	nriName := pl.name
+	if pp.Name != "" {
+		nriName = pp.Name
+	}
+	p := &fx.Plugin{Name: nriName, Idx: fmt.Sprintf("%02d", pp.Idx), Mask: mask}
 	p.OnSynchronize = func(_ context.Context, _ []*api.PodSandbox, ctrs []*api.Container) ([]*api.ContainerUpdate, error) {
 		// A reading of the block count only counts while the runtime's SyncFn is in progress
 		// (before and after the reading): a handler that runs after the runtime gave up on the
@@ -879,26 +910,86 @@ func (pl *plug) probeCount() int {
 
 // waitActive probes until each of the plugins has seen a probe, or the deadline passes.
 // It returns the plugins that have not.
-func (x *exec) waitActive(pls []*plug, deadline time.Time) []*plug {
+func (x *exec) waitActive(pls []*plug, deadline time.Time) (missing []*plug, fenced bool) {
 	for {
 		if err := x.r.Probe(); err != nil {
 			x.infraf("probe event failed: %v", err)
-			return pls
+			return pls, false
 		}
-		var missing []*plug
+		missing = nil
 		for _, pl := range pls {
 			if pl.probeCount() == 0 {
 				missing = append(missing, pl)
 			}
 		}
 		if len(missing) == 0 {
-			return nil
+			return nil, fenced
+		}
+		if fenced {
+			// Every missing plugin was synchronized successfully, the exclusive section of its
+			// registration is over (a sync block was granted afterwards), and a probe sent after
+			// that did not reach it: it has not become active and never will.
+			return missing, true
 		}
 		if time.Now().After(deadline) {
-			return missing
+			return missing, false
+		}
+		if x.syncedOK(missing) {
+			got := make(chan struct{})
+			go func() {
+				b := x.r.A.BlockPluginSync()
+				x.held.Add(1)
+				x.held.Add(-1)
+				b.Unblock()
+				close(got)
+			}()
+			select {
+			case <-got:
+				fenced = true
+				continue
+			case <-time.After(time.Until(deadline)):
+				return missing, false
+			}
 		}
 		time.Sleep(500 * time.Microsecond)
 	}
+}
+
+// syncedOK: the runtime's SyncFn call has returned without error for each of the plugins.
+func (x *exec) syncedOK(pls []*plug) bool {
+	ok := map[string]bool{}
+	x.mu.Lock()
+	for _, rg := range x.regs {
+		if rg.TReturn != 0 && rg.Err == "" && rg.Handlers > 0 {
+			ok[rg.Plugin] = true
+		}
+	}
+	x.mu.Unlock()
+	for _, pl := range pls {
+		if !ok[pl.name] {
+			return false
+		}
+	}
+	return true
+}
+
+// notActivated turns a fenced miss into a finding, unless the plugin lost its connection or
+// something else went wrong that the property does not talk about.
+func (x *exec) notActivated(miss []*plug) bool {
+	x.mu.Lock()
+	bad := len(x.infra) > 0
+	x.mu.Unlock()
+	for _, pl := range miss {
+		pl.mu.Lock()
+		bad = bad || pl.closed
+		pl.mu.Unlock()
+	}
+	if bad {
+		return false
+	}
+	pl := miss[0]
+	x.finding("not-activated", "plugin %s (index %02d, name %q) was synchronized successfully and the exclusive section of its registration is over (a sync block was granted afterwards), yet an event sent after that did not reach it: it completed registration without becoming active (%d plugin(s) affected)", pl.name, pl.plan.Idx, pl.p.Name, len(miss))
+	return true
 }
 
 func (x *exec) leftCount() int {
@@ -1201,6 +1292,7 @@ func execute(c C08Case, attempt int) result {
 	hist := History{Attempt: attempt, Hooks: verifhook.Enabled}
 	stuck, stuckFor := false, time.Duration(0)
 	var timeFail string
+	contentFail := false // a history invariant is already known to be violated: skip what only costs time
 
 	teardown := func() {
 		x.mu.Lock()
@@ -1250,7 +1342,9 @@ func execute(c C08Case, attempt int) result {
 		if pl.startErr != "" {
 			continue
 		}
-		if miss := x.waitActive([]*plug{pl}, time.Now().Add(activeBound)); len(miss) != 0 && timeFail == "" {
+		if miss, fenced := x.waitActive([]*plug{pl}, time.Now().Add(activeBound)); len(miss) != 0 && fenced && x.notActivated(miss) {
+			contentFail = true
+		} else if len(miss) != 0 && timeFail == "" {
 			timeFail = fmt.Sprintf("resident plugin %s did not become active within %v although no sync block was held", pl.name, activeBound)
 		}
 	}
@@ -1264,7 +1358,7 @@ func execute(c C08Case, attempt int) result {
 
 	// --- creators, registrations, noise ----------------------------------------------------
 	var nwg sync.WaitGroup
-	if timeFail == "" {
+	if timeFail == "" && !contentFail {
 		for i := 0; i < c.Noise; i++ {
 			nwg.Add(1)
 			go func(i int) { defer nwg.Done(); x.noise(i) }(i)
@@ -1368,7 +1462,9 @@ func execute(c C08Case, attempt int) result {
 				}
 			}
 			if timeFail == "" {
-				if miss := x.waitActive(ok, tLast.Add(activeBound)); len(miss) != 0 {
+				if miss, fenced := x.waitActive(ok, tLast.Add(activeBound)); len(miss) != 0 && fenced && x.notActivated(miss) {
+					contentFail = true
+				} else if len(miss) != 0 {
 					timeFail = fmt.Sprintf("plugin %s did not become active within %v after the last sync block was released (Start returned at %d µs, last release at %d µs)", miss[0].name, activeBound, miss[0].tStarted, hist.TLastRel)
 				}
 			}
@@ -1379,7 +1475,7 @@ func execute(c C08Case, attempt int) result {
 	}
 
 	// --- a final creation, after every registration completed: active plugins must get it ---
-	if timeFail == "" && !stuck {
+	if timeFail == "" && !stuck && !contentFail {
 		rec, _, _ := x.createOne(-1, "final", CreatorPlan{AddFirst: true, Hold: -1, Unblocks: 1}, nil, false, 0)
 		x.crecs = append(x.crecs, []Creation{rec})
 	}
@@ -1547,6 +1643,36 @@ func execute(c C08Case, attempt int) result {
 			if behind {
 				classes = append(classes, "leave:pending,behind-block")
 			}
+		}
+	}
+	{
+		// plugins that stay, by identity (index + name as the runtime sees them)
+		count := map[string]int{}
+		resident := map[string]bool{}
+		most, mixed := 0, false
+		for _, pl := range x.plugs {
+			if pl.plan.Leave != 0 {
+				continue
+			}
+			key := fmt.Sprintf("%02d-%s", pl.plan.Idx, pl.p.Name)
+			count[key]++
+			if count[key] > 1 && resident[key] != pl.resident {
+				mixed = true
+			}
+			resident[key] = resident[key] || pl.resident
+			most = max(most, count[key])
+		}
+		if most >= 2 {
+			classes = append(classes, "identity:twins")
+		}
+		if most >= 3 {
+			classes = append(classes, "identity:three-of-a-kind")
+		}
+		if mixed {
+			classes = append(classes, "identity:twin-of-resident")
+		}
+		if len(c.Plugins) > 0 && c.Plugins[0].Name != "" {
+			classes = append(classes, "identity:shared-alphabet")
 		}
 	}
 	if len(c.Pods) > 0 {
@@ -1843,6 +1969,11 @@ func sweepCases() []C08Case {
 		// another pod, like a prefix / an extension of a pod id; one created with a pod's id
 		{Pre: 5, Pods: []string{"sb0", "sb1", "sb"}, PreIDs: []string{"sb1", "", "sb0", "s", "sb00"}, Residents: []PluginPlan{{Idx: 4}},
 			Creators: []CreatorPlan{idCr, cr(true, 5, 0, 0)}, Plugins: []PluginPlan{{Idx: 12, After: 1}, {Idx: 1, After: 6}}, Delays: d(3)},
+		// several instances of one plugin (same index, same name): a resident, one registering
+		// early, one late; next to same-index/other-name and same-name/other-index plugins
+		{Pre: 2, Residents: []PluginPlan{{Idx: 10, Name: "logger"}}, Creators: []CreatorPlan{cr(true, 8, 0, 0), cr(false, 6, 0, 0)},
+			Plugins: []PluginPlan{{Idx: 10, Name: "logger", After: 1}, {Idx: 10, Name: "tracer", After: 3}, {Idx: 20, Name: "logger", After: 5}, {Idx: 10, Name: "logger", After: 12}},
+			Noise:   1, Delays: d(5)},
 		// the default-sized timeout of the library (2 s) with a block of 2.5 s
 		{Creators: []CreatorPlan{cr(true, 2, 1, 2500)}, Plugins: []PluginPlan{pl(1)}, Delays: d(1), ReqTimeoutMs: 2000},
 	}
